@@ -32,3 +32,12 @@ Example ex_groups :
   map (map ident) (routes (rrun [RMw 0 0; RMw 0 0; RMw 0 0; RGroup 0; RGroup 0; RMw 1 0; RMw 2 0; RRoute 1; RRoute 2; RRoute 0]))
   = [[0; 1; 2; 3]; [0; 1; 2; 4]; [0; 1; 2]]%nat.
 Proof. reflexivity. Qed.
+
+(* the inner of two middlewares throws after $next: its own after-$next call ran, the outer one's did not,
+   onError's calls follow; the 201 of the handler was committed by the first write *)
+Example ex_throw_post :
+  client (serve_t [(0%Z, {| l_pre := [OWrite "o"]; l_tpre := false; l_post := [OWrite "O"]; l_tpost := false |});
+                   (1%Z, {| l_pre := [OStatus 201]; l_tpre := false; l_post := [OWrite "I"]; l_tpost := true |})]
+                  [OHeader "X-A" "1"] false [OStatus 500; OWrite "E"])
+  = (200, [], "oIE").
+Proof. reflexivity. Qed.
